@@ -387,6 +387,8 @@ func run(cmd string, args []string) int {
 		return cmdRun(args)
 	case "gen":
 		return cmdGen(args)
+	case "attacks":
+		return cmdAttacks(args)
 	}
 	fmt.Fprintln(os.Stderr, "unknown command", cmd)
 	return 2
